@@ -71,6 +71,8 @@ def cases(tier):
     for l in c03.SCENARIOS[:3] + EXTRA[:3] + EXTRA[-1:]:
         for enc in ('utf-16', 'utf-8-sig', 'utf-32'):
             yield l, dict(coverage=0.6, encoding=enc)
+    # a code page that lacks the small letter of some of its capitals: refused, or saved completely
+    yield ['\u0393amma7', 'password1', 'Pass\u03a9', 'alpha12', 'alpha12'], dict(coverage=0.6, encoding='cp437')
     # coverages next to the two special values (exactly 0: Markov only, exactly 1: no Markov structure) are ordinary coverages
     for l in c03.SCENARIOS[:4] + EXTRA[:4]:
         for c in (1e-10, 1e-6, 0.9999999999, 0.999999):
